@@ -114,7 +114,7 @@ def _history_shard(k):
             i += 1
             if i % SHARDS != k:
                 continue
-            nontrivial = any(not q for (n, a, kw, q), ip in h)
+            nontrivial = any(q is not True for (n, a, kw, q), ip in h)
             for docname, doc in docs:
                 res.evaluations += 1
                 if nontrivial:
@@ -124,7 +124,7 @@ def _history_shard(k):
                     d = histories.describe(h)
                     # identify by the kind of disagreement (protocol breaches name their own step), else by the last
                     # operation: the same defect shows up in many histories
-                    if "returned" in r or "changed the receiver" in r:
+                    if "returned" in r or "changed the receiver" in r or "own serialisation" in r:
                         key = f"history:protocol:{r.split(';')[0][:80]}"
                     else:
                         key = f"history:{d[-1].split('(')[0]}:{'inplace' if h[-1][1] else 'copy'}:{r[:60]}"
